@@ -334,7 +334,6 @@ func TestEnumObjects3(t *testing.T) {
 
 func objOpts(depth int) gen.Opts {
 	o := gen.Full(depth)
-	o.Display = false
 	return o
 }
 
